@@ -64,7 +64,7 @@ def py_structural_change(genotype, idx, interval):
 
 
 def make_case(rng):
-    ploidy = int(rng.integers(1, 9))
+    ploidy = int(rng.integers(1, 9)) if rng.random() < 0.85 else int(rng.choice([9, 10, 12, 16]))
     n_pos = int(rng.integers(0, 9))
     n_nucl = int(rng.integers(2, 5))
     n_alleles = rng.integers(2, n_nucl + 1, size=n_pos)
